@@ -21,7 +21,7 @@ ASSUMPTIONS = [
     'duplicate: target name is fresh; appended iterables: base resource names do not look like res_<n> (the auto-name)',
     'appended iterable rows share one key set and contain no empty strings (tableschema reads "" as missing)',
 ]
-BUDGET = {'quick': dict(examples=1600, shards=8, seconds=70),
+BUDGET = {'quick': dict(examples=3200, shards=16, seconds=70),
           'thorough': dict(examples=100000, shards=16, seconds=1200)}
 
 NAMES_NO_AUTO = [n for n in gen.RES_NAMES if not re.fullmatch(r'res_\d+', n)]
